@@ -87,7 +87,11 @@ fn its_meta(k: u8) -> (Vec<u8>, Vec<u8>, u32) {
 }
 
 fn probe_meta(k: u8) -> (Vec<u8>, Vec<u8>, u32, bool) {
-    match k % 12 {
+    match k % 16 {
+        12 => (b"native".to_vec(), b"native".to_vec(), 7, true),
+        13 => (b"XLM".to_vec(), b"XLM".to_vec(), 7, true),
+        14 => (b"USDC:GA5ZSEJYB37JRC5AVCIA5MOP4RHTM335X2KGX3IHOJAPP5RE34K4KZVN".to_vec(), b"USDC".to_vec(), 7, true),
+        15 => (b"Stellar".to_vec(), b"native".to_vec(), 7, true),
         6 => (b"Pad\0\0".to_vec(), b"PD\0".to_vec(), 7, true),
         7 => (b" Spaced ".to_vec(), b" S ".to_vec(), 7, true),
         8 => (b"\0".to_vec(), b"\0".to_vec(), 7, true),
@@ -107,7 +111,7 @@ fn tok() -> impl Strategy<Value = Tok> {
     prop_oneof![
         7 => (0u8..20).prop_map(Tok::ItsDeployed),
         3 => Just(Tok::Asset),
-        7 => (0u8..12).prop_map(Tok::Probe),
+        8 => (0u8..16).prop_map(Tok::Probe),
         1 => Just(Tok::ItsDeployedViaCanonical),
         1 => Just(Tok::UnregisteredSalt),
         1 => Just(Tok::UnregisteredAsset),
@@ -120,7 +124,7 @@ impl Property for C18 {
         "C18"
     }
     fn rule(&self) -> &'static str {
-        "proptest single cases: token (ITS-deployed with 5 metadata classes and with nobody / the deployer / the other caller as designated local minter incl. multi-byte names, decimals 0/255, 32/33-byte strings; Stellar asset contract registered as canonical; harness token with metadata ok / multi-byte / decimals 255 / empty name / empty symbol / decimals 256 / names with trailing NULs, surrounding spaces, a single NUL, control characters, 300 / 257 bytes, BOM and full-width letters registered as canonical, optionally renamed after an earlier remote deployment under other metadata; ITS-deployed token addressed through the canonical entry point; unregistered salt / asset) x caller (original deployer, another address reusing the salt) x destination (trusted, never trusted, removed again, the hub chain itself, empty, a trusted name in another letter case / with a trailing space) x gas (0, negative, affordable, exact balance, balance+1) x payer authorised or not. Oracle: success iff id registered for the caller's own (deployer,salt) / the canonical address, destination trusted, metadata representable, payer authorised a positive affordable payment; then returned id = independent derivation, exactly one contract_called to the hub whose payload equals the harness's own ABI encoding of SendToHub{destination, Deploy{id,name,symbol,decimals,no minter}}, a gas payment event with the same payload hash, payer and amount, one service event naming the id and the actual metadata, and the only balance change is the gas payment; otherwise failure with the ledger snapshot identical. non-trivial = every case except the suite's fixed happy path; distinct by Debug hash"
+        "proptest single cases: token (ITS-deployed with 5 metadata classes and with nobody / the deployer / the other caller as designated local minter incl. multi-byte names, decimals 0/255, 32/33-byte strings; Stellar asset contract registered as canonical; harness token with metadata ok / multi-byte / decimals 255 / empty name / empty symbol / decimals 256 / names with trailing NULs, surrounding spaces, a single NUL, control characters, 300 / 257 bytes, BOM and full-width letters, and asset-contract style names (native / native, XLM, CODE:ISSUER) registered as canonical, optionally renamed after an earlier remote deployment under other metadata; ITS-deployed token addressed through the canonical entry point; unregistered salt / asset) x caller (original deployer, another address reusing the salt) x destination (trusted, never trusted, removed again, the hub chain itself, empty, a trusted name in another letter case / with a trailing space) x gas (0, negative, affordable, exact balance, balance+1) x payer authorised or not. Oracle: success iff id registered for the caller's own (deployer,salt) / the canonical address, destination trusted, metadata representable, payer authorised a positive affordable payment; then returned id = independent derivation, exactly one contract_called to the hub whose payload equals the harness's own ABI encoding of SendToHub{destination, Deploy{id,name,symbol,decimals,no minter}}, a gas payment event with the same payload hash, payer and amount, one service event naming the id and the actual metadata, and the only balance change is the gas payment; otherwise failure with the ledger snapshot identical. non-trivial = every case except the suite's fixed happy path; distinct by Debug hash"
     }
     fn cases(&self, tier: Tier) -> u64 {
         tier.pick(15000, 150000)
@@ -139,7 +143,7 @@ impl Property for C18 {
     }
     fn fixed_cases(&self, _tier: Tier) -> Vec<Case> {
         let mut v = vec![];
-        for k in 0..12 {
+        for k in 0..16 {
             v.push(Case { tok: Tok::Probe(k), who: Who::OriginalDeployer, dest: Dest::Trusted, gas: GasC::Affordable(3), authorised: true, renamed_after_earlier_deployment: false });
             v.push(Case { tok: Tok::Probe(k), who: Who::OriginalDeployer, dest: Dest::Trusted, gas: GasC::Affordable(3), authorised: true, renamed_after_earlier_deployment: true });
         }
